@@ -580,9 +580,36 @@ def endFlashloan (c : Ctx) (stackHeight : Nat) : Res Nat := do
   Risk.checkInitHealth ps
   .ok (c.a.flags &&& (Nat.xor ACCOUNT_IN_FLASHLOAN.toNat (2 ^ 64 - 1)))
 
+/-! ### `lending_pool_accrue_bank_interest` and `lending_pool_collect_bank_fees`, the whole instructions
+
+Both are permissionless cranks on one bank (no margin account, no signer). Accrual: the bank belongs to the group (regenerated
+table) → `accrue_interest` (the cache refresh that follows writes no field of the model). Fee collection: the protocol is not
+paused, the bank belongs to the group (regenerated table) → the fee ATA passed is the ATA of the global fee wallet for the
+bank's mint → `Bank.collectFees` on the three buckets and the liquidity vault's balance: whole tokens to the insurance vault,
+the fee vault and the program's ATA, in that order of claims on what the vault holds; the buckets fall by exactly what moved.
+No accrual. -/
+
+def accrueIx (c : Ctx) : Res Bank.Bank := do
+  runChecks c.env (checks .LendingPoolAccrueBankInterest)
+  Bank.accrueInterest c.b.books c.b.ir c.now
+
+structure CollectOut where
+  books : Bank.Bank
+  toInsurance : Int
+  toGroup : Int
+  toProgram : Int
+  deriving Repr
+
+def collectFeesIx (c : Ctx) (feeAtaOk : Bool) : Res CollectOut := do
+  runChecks c.env (checks .LendingPoolCollectBankFees)
+  Bank.chk feeAtaOk E.InvalidFeeAta
+  let r ← Bank.collectFees c.b.books.feeI c.b.books.feeG c.b.books.feeP c.vaultAmount
+  .ok { books := { c.b.books with feeI := r.feeI, feeG := r.feeG, feeP := r.feeP },
+        toInsurance := r.toInsurance, toGroup := r.toGroup, toProgram := r.toProgram }
+
 /-! ### the protocol as a state machine over whole instructions
 
-Any number of margin accounts and banks of one group; a step is one of the five whole instructions by any signer on any
+Any number of margin accounts and banks of one group; a step is one of the whole instructions by any signer on any
 (account, bank) pair with any arguments, or the passage of time. A refused instruction leaves the state as it was (the
 transaction is rolled back). Two ghost counters per bank record the shares that complete withdrawals / repayments and balance
 closures abandon in the bank totals (the other-side residue of the closed position, which the code checked to be worth less
@@ -611,6 +638,8 @@ inductive WOp
   | close (ai bi signer : Nat)
   | bankruptcy (ai bi signer : Nat) (available : Int)
   | liquidate (qi ei abi lbi signer : Nat) (amount : Int)   -- liquidator, liquidatee, collateral bank, debt bank
+  | accrue (bi : Nat)                                        -- the permissionless accrual crank
+  | collect (bi : Nat) (feeAtaOk : Bool) (vault : Int)       -- the permissionless fee collection
   | tick (dt : Nat)
 
 def WBank.riskB (b : WBank) : RiskB :=
@@ -639,6 +668,15 @@ def WState.commit (w : WState) (ai bi : Nat) (a : AcctV) (b : WBank) (slots : Li
     banks := w.banks.set bi { b with v := { b.v with books, opState } },
     dustA := bump w.dustA b.v.key dA,
     dustL := bump w.dustL b.v.key dL }
+
+/-- the context of an instruction that names no margin account and no signer -/
+def noAcct : AcctV := { key := 0, group := 0, authority := 0, flags := 0, slots := [] }
+
+def WState.bctx (w : WState) (b : WBank) (vaultAmount : Int) : Ctx := w.ctx noAcct b 0 b.v.liquidityVault vaultAmount
+
+/-- commit the outcome of an instruction on bank `bi` alone -/
+def WState.commitB (w : WState) (bi : Nat) (b : WBank) (books : Bank.Bank) : WState :=
+  { w with banks := w.banks.set bi { b with v := { b.v with books } } }
 
 /-- commit a liquidation: two accounts, two banks -/
 def WState.commit2 (w : WState) (qi ei abi lbi : Nat) (lq le : AcctV) (ab lb : WBank) (o : LiqOutW) : WState :=
@@ -676,6 +714,20 @@ def WState.step (w : WState) (op : WOp) : WState :=
       | .ok o => w.commit2 qi ei abi lbi lq le ab lb o
       | .error _ => w
     | _, _, _, _ => w
+  | .accrue bi =>
+    match w.banks[bi]? with
+    | some b =>
+      match accrueIx (w.bctx b 0) with
+      | .ok books => w.commitB bi b books
+      | .error _ => w
+    | none => w
+  | .collect bi feeAtaOk vault =>
+    match w.banks[bi]? with
+    | some b =>
+      match collectFeesIx (w.bctx b vault) feeAtaOk with
+      | .ok o => w.commitB bi b o.books
+      | .error _ => w
+    | none => w
   | .tick dt => { w with now := w.now + dt }
 
 def WState.run (w : WState) (ops : List WOp) : WState := ops.foldl WState.step w
